@@ -174,6 +174,10 @@ static void push_evt(m_mod_t *mod, evt_priv_t *evt) {
                 mod->tb.tokens++;
             }
         }
+        if (!force) {
+            /* Only the batch timer hands batched events over: any other internal event is none of the user's business */
+            return;
+        }
     } else {
         m_queue_enqueue(mod->batch.events, evt);
         /*
